@@ -50,6 +50,45 @@ func verifControlGood3(in io.Reader) ([]uint32, error) {
 	return nil, err
 }
 
+// REC-WHOLE: block reader whose decode loop is bounded in bytes: the trailing partial record is decoded
+func verifControlRECBad(in io.Reader) ([]uint32, error) {
+	block := make([]byte, 4*256)
+	out := make([]uint32, 0)
+	var err error
+	for err == nil {
+		var n int
+		n, err = io.ReadFull(in, block)
+		for off := 0; off < n; off += 4 {
+			out = append(out, binary.LittleEndian.Uint32(block[off:off+4]))
+		}
+	}
+	if err == io.EOF || err == io.ErrUnexpectedEOF {
+		err = nil
+	}
+	return out, err
+}
+
+// block reader bounded in whole records; a partial tail is an error, the whole records before it are kept
+func verifControlGood12(in io.Reader) ([]uint32, error) {
+	block := make([]byte, 4*256)
+	out := make([]uint32, 0)
+	var err error
+	for err == nil {
+		var n int
+		n, err = io.ReadFull(in, block)
+		if err == io.ErrUnexpectedEOF && n%4 == 0 {
+			err = io.EOF
+		}
+		for off := 0; off+4 <= n; off += 4 {
+			out = append(out, binary.LittleEndian.Uint32(block[off:off+4]))
+		}
+	}
+	if err == io.EOF {
+		err = nil
+	}
+	return out, err
+}
+
 // the same stream reader, if/else form, a trailing partial record is dropped silently (allowed: exactly the whole records)
 func verifControlGood8(in io.Reader) ([]uint32, error) {
 	buf := make([]byte, 4)
